@@ -14,6 +14,7 @@ Record scope := mk_scope {
   sc_name : name;
   sc_component : option name;
   sc_tpe : N;
+  sc_decl : option (name * N);       (* declaration source: (path, line) *)
   sc_child : option item_id;
   sc_parent : option nat;
   sc_next : option item_id
@@ -26,6 +27,7 @@ Record var := mk_var {
   v_enc : sig_enc;
   v_index : option (Z * Z);          (* (msb, lsb) *)
   v_signal : nat;                    (* SignalRef index *)
+  v_type_name : option name;         (* vhdl_type_name *)
   v_parent : option nat;
   v_next : option item_id
 }.
@@ -60,7 +62,7 @@ Definition set_scope_next (scopes : list scope) (i : nat) (n : option item_id) :
   | None => Panic
   | Some s => match sc_next s with
               | Some _ => Panic                                     (* assert!(next.is_none()) *)
-              | None => Ok (list_update scopes i (mk_scope (sc_name s) (sc_component s) (sc_tpe s)
+              | None => Ok (list_update scopes i (mk_scope (sc_name s) (sc_component s) (sc_tpe s) (sc_decl s)
                                                            (sc_child s) (sc_parent s) n))
               end
   end.
@@ -69,7 +71,7 @@ Definition set_scope_child (scopes : list scope) (i : nat) (n : option item_id) 
   | None => Panic
   | Some s => match sc_child s with
               | Some _ => Panic                                     (* assert!(child.is_none()) *)
-              | None => Ok (list_update scopes i (mk_scope (sc_name s) (sc_component s) (sc_tpe s)
+              | None => Ok (list_update scopes i (mk_scope (sc_name s) (sc_component s) (sc_tpe s) (sc_decl s)
                                                            n (sc_parent s) (sc_next s)))
               end
   end.
@@ -79,7 +81,7 @@ Definition set_var_next (vars : list var) (i : nat) (n : option item_id) : outco
   | Some v => match v_next v with
               | Some _ => Panic
               | None => Ok (list_update vars i (mk_var (v_name v) (v_tpe v) (v_direction v) (v_enc v)
-                                                       (v_index v) (v_signal v) (v_parent v) n))
+                                                       (v_index v) (v_signal v) (v_type_name v) (v_parent v) n))
               end
   end.
 
@@ -153,8 +155,8 @@ Definition find_last_child (b : builder) (sc : nat) : outcome (option item_id) :
   end.
 
 (* add_scope *)
-Definition add_scope (b : builder) (nm : name) (component : option name) (tpe : N) (flatten : bool)
-  : outcome builder :=
+Definition add_scope (b : builder) (nm : name) (component : option name) (tpe : N) (decl : option (name * N))
+           (flatten : bool) : outcome builder :=
   do dup <- find_duplicate_scope b nm;
   match dup with
   | Some d =>
@@ -174,7 +176,7 @@ Definition add_scope (b : builder) (nm : name) (component : option name) (tpe : 
       do '(b2, parent) <- add_to_tree b1 wrapped;
       let component := match component with Some [] => None | c => c end in
       Ok (mk_builder (hb_vars b2)
-                     (hb_scopes b2 ++ [mk_scope nm component tpe None parent None])
+                     (hb_scopes b2 ++ [mk_scope nm component tpe decl None parent None])
                      (hb_first b2)
                      (mk_entry (Some node_id) None false :: hb_stack b2) (hb_handles b2))
   end.
@@ -190,7 +192,7 @@ Fixpoint resize_handles (l : list (option nat)) (n : nat) : list (option nat) :=
 
 (* add_var *)
 Definition add_var (b : builder) (nm : name) (tpe direction : N) (enc : sig_enc)
-           (index : option (Z * Z)) (signal_idx : nat) : outcome builder :=
+           (index : option (Z * Z)) (signal_idx : nat) (type_name : option name) : outcome builder :=
   let node_id := length (hb_vars b) in
   let wrapped := IVar node_id in
   let b1 := mk_builder (hb_vars b) (hb_scopes b)
@@ -198,7 +200,7 @@ Definition add_var (b : builder) (nm : name) (tpe direction : N) (enc : sig_enc)
                        (hb_stack b) (hb_handles b) in
   do '(b2, parent) <- add_to_tree b1 wrapped;
   let handles := list_update (resize_handles (hb_handles b2) (S signal_idx)) signal_idx (Some node_id) in
-  Ok (mk_builder (hb_vars b2 ++ [mk_var nm tpe direction enc index signal_idx parent None])
+  Ok (mk_builder (hb_vars b2 ++ [mk_var nm tpe direction enc index signal_idx type_name parent None])
                  (hb_scopes b2) (hb_first b2) (hb_stack b2) handles).
 
 (* pop_scope: self.scope_stack.pop().unwrap() *)
@@ -209,14 +211,15 @@ Definition pop_scope (b : builder) : outcome builder :=
   end.
 
 Inductive hier_op :=
-| HScope (nm : name) (component : option name) (tpe : N) (flatten : bool)
+| HScope (nm : name) (component : option name) (tpe : N) (decl : option (name * N)) (flatten : bool)
 | HVar (nm : name) (tpe direction : N) (enc : sig_enc) (index : option (Z * Z)) (signal_idx : nat)
+       (type_name : option name)
 | HPop.
 
 Definition hier_step (b : builder) (op : hier_op) : outcome builder :=
   match op with
-  | HScope nm c t f => add_scope b nm c t f
-  | HVar nm t d e i s => add_var b nm t d e i s
+  | HScope nm c t dl f => add_scope b nm c t dl f
+  | HVar nm t d e i s tn => add_var b nm t d e i s tn
   | HPop => pop_scope b
   end.
 
